@@ -638,6 +638,10 @@ impl World {
             return;
         }
         tok::disarm_all();
+        if self.rt[a as usize].leaked_guard {
+            // a fault the client planted for good: no cycle can be promised to finish
+            return;
+        }
         let cut_phase = self.phase(a);
         if cut_phase != Phase::Sleeping {
             self.stats.flag("C02.cut-mid-cycle");
